@@ -1,0 +1,44 @@
+//go:build verif
+
+package config
+
+import (
+	"math/rand"
+
+	"github.com/spf13/pflag"
+
+	"github.com/keep-network/keep-core/config/network"
+	"github.com/keep-network/keep-core/pkg/bitcoin"
+)
+
+// Thin exported wrappers used by the /verif harness (property C44). No behaviour of their own.
+
+// VerifReadPeers exposes readPeers (the embedded default peers of a network).
+func VerifReadPeers(clientNetwork network.Type) ([]string, error) {
+	return readPeers(clientNetwork)
+}
+
+// VerifReadElectrumUrls exposes readElectrumUrls (the embedded default Electrum URLs).
+func VerifReadElectrumUrls(bitcoinNetwork bitcoin.Network) ([]string, error) {
+	return readElectrumUrls(bitcoinNetwork)
+}
+
+// VerifResolveNetworks exposes (*Config).resolveNetworks.
+func (c *Config) VerifResolveNetworks(flagSet *pflag.FlagSet) (network.Type, error) {
+	return c.resolveNetworks(flagSet)
+}
+
+// VerifResolvePeers exposes (*Config).resolvePeers.
+func (c *Config) VerifResolvePeers(clientNetwork network.Type) error {
+	return c.resolvePeers(clientNetwork)
+}
+
+// VerifResolveElectrum exposes (*Config).resolveElectrum.
+func (c *Config) VerifResolveElectrum(rng *rand.Rand) error {
+	return c.resolveElectrum(rng)
+}
+
+// VerifResolveContractsAddresses exposes (*Config).resolveContractsAddresses.
+func (c *Config) VerifResolveContractsAddresses() {
+	c.resolveContractsAddresses()
+}
